@@ -348,7 +348,6 @@ trait Rt: Clone + Sized {
     fn one_flag(&self) -> bool;
     fn int_flag(&self) -> Option<bool>;
     fn neg_flag(&self) -> bool;
-    fn mk(n: IBig, d: UBig) -> Self;
     fn from_int(q: IBig) -> Self;
     fn exec(pool: &[Self; POOL], r: &R) -> Prod<Self>;
 }
@@ -428,9 +427,6 @@ macro_rules! impl_rt {
             }
             fn neg_flag(&self) -> bool {
                 self.sign() == Sign::Negative
-            }
-            fn mk(n: IBig, d: UBig) -> Self {
-                <$T>::from_parts(n, d)
             }
             fn from_int(q: IBig) -> Self {
                 <$T>::from(q)
